@@ -55,10 +55,52 @@ class C10(CheckBase):
     def examples(self, tier):
         return 700 if tier == "quick" else 20000
 
+    def enumerated(self, tier):
+        # one full-size MMB archive (8192 + 511 x 204800 bytes) through gzip: thorough tier only (dfs inflates it
+        # into a 100 MB temporary file)
+        if tier == "thorough":
+            yield {"full_mmb": True, "level": 1}
+
     def sample(self, case):
+        if case.get("full_mmb"):
+            return case
         c = dict(case)
         c["image"] = {k: case["image"][k] for k in ("ext", "variant", "tracks", "spt")}
         return c
+
+    def _full_mmb(self, ctx, case, v):
+        import gzip
+        dfs = ctx.tool("dbg", "dfs")
+        ent = {"name": b"F", "dir": ord("$"), "locked": False, "load": 0, "exec": 0, "length": 700, "start": 2,
+               "body": {"kind": "rand", "seed": 7}}
+        surf = {"variant": "acorn", "tracks": 80, "spt": 10, "fill": {"kind": "zero", "seed": 0},
+                "volumes": [{"label": None, "title": b"FULLMMB", "cycle": 0, "boot": 0, "total": 800, "cats": [[ent]]}]}
+        img = disc.build_surface(surf)
+        with runtool.Sandbox("c10m") as sb:
+            plain = os.path.join(sb.path, "a.mmb")
+            containers.write_mmb(plain, {0: (0x0F, img), 255: (0x00, img), 510: (0x0F, img)})
+            z = os.path.join(sb.path, "z")
+            os.makedirs(z)
+            zp = os.path.join(z, "a.mmb.gz")
+            with open(plain, "rb") as fi, gzip.open(zp, "wb", compresslevel=case["level"]) as fo:
+                while True:
+                    chunk = fi.read(1 << 20)
+                    if not chunk:
+                        break
+                    fo.write(chunk)
+            v.nontrivial = True
+            v.classes.append("full-size-mmb")
+            for cmd in (["--drive-first", "type", "--binary", ":510.$.F"], ["--drive-first", "show-titles", "255"],
+                        ["--drive-first", "dump-sector", "510", "79", "9"]):
+                pre = [c for c in cmd if c.startswith("--drive")]
+                rest = [c for c in cmd if not c.startswith("--drive")]
+                a = runtool.run([dfs] + pre + ["--file", plain] + rest, sb.path, timeout=120)
+                b = runtool.run([dfs] + pre + ["--file", zp] + rest, sb.path, timeout=120)
+                v.evaluations += 2
+                if a.status != b.status or a.stdout != b.stdout or b.signal is not None:
+                    v.fail("C10/full-mmb", "%s differs between a.mmb and a.mmb.gz" % " ".join(rest),
+                           {"gz": b.brief(), "plain": a.brief()})
+        return v
 
     def _cmd(self, case, cmd, out):
         nm = "F"
@@ -71,6 +113,8 @@ class C10(CheckBase):
 
     def judge(self, ctx, case):
         v = Verdict()
+        if case.get("full_mmb"):
+            return self._full_mmb(ctx, case, v)
         dfs = ctx.tool("asan" if case["seed"] % 5 == 0 else "dbg", "dfs")
         img_case = case["image"]
         try:
